@@ -255,16 +255,37 @@ def lint_line(line):
 
 
 def lint_file(path):
+    """Checks every observation line.  A line TLC's Json reader would misread (a value outside the
+    loggable range: the code under test produced something the projection cannot express) is replaced by
+    an event {"ev": "unloggable"} that every trace specification rejects, so it is reported as a
+    violating observation of that case instead of being silently wrapped or truncated."""
     n = 0
-    with open(path) as f:
+    out = []
+    changed = False
+    with open(path, errors="replace") as f:
         for k, line in enumerate(f):
             line = line.rstrip("\n")
             if not line:
                 continue
             err = lint_line(line)
+            if not err:
+                try:
+                    json.loads(line)
+                except Exception:
+                    err = "not valid JSON"
+            if "\ufffd" in line:
+                err = "undecodable bytes (memory corrupted by the code under test?)"
             if err:
-                raise ToolError("trace lint: %s line %d: %s: %s" % (path, k + 1, err, line[:300]))
+                m = re.search(r'"case":\s*(\d+)', line)
+                case = int(m.group(1)) if m else -1
+                out.append(json.dumps({"ev": "unloggable", "case": case, "why": err[:200]}))
+                changed = True
+            else:
+                out.append(line)
             n += 1
+    if changed:
+        with open(path, "w") as f:
+            f.write("\n".join(out) + "\n")
     return n
 
 
@@ -294,8 +315,26 @@ def validate_trace(ctx, trace_module, constants, obs_path, prop, tagbase, chunk=
     import concurrent.futures
     def work(job):
         ci, ch, cpath = job
-        rc, out_path, secs = run_tlc(trace_module, cfg_path, ctx["dir"], "%s_%d" % (tagbase, ci), workers=1,
-                                     env={"TRACE": cpath, "PROP": prop}, heap="3g", timeout=1800, trace_mode=True)
+        # An observation the specification cannot even evaluate (garbage written by the code under test into a
+        # record, a value that overflows the evaluator) is replaced by an "unloggable" event - which every trace
+        # specification rejects - and the chunk is validated again, so that it is reported as a violating
+        # observation of that case rather than as a tool error.
+        for attempt in range(25):
+            rc, out_path, secs = run_tlc(trace_module, cfg_path, ctx["dir"], "%s_%d" % (tagbase, ci), workers=1,
+                                         env={"TRACE": cpath, "PROP": prop}, heap="3g", timeout=1800, trace_mode=True)
+            text = open(out_path, errors="replace").read()
+            if "Model checking completed" in text or "TLC threw an unexpected exception" not in text and "Error: Evaluating" not in text:
+                break
+            ls = [int(x) for x in re.findall(r"^/?\\?\s*l = (\d+)", text, re.M)]
+            if not ls or max(ls) > len(ch):
+                break
+            k = max(ls)
+            m = re.search(r'"case":\s*(\d+)', ch[k - 1])
+            why = re.search(r"The exception was a [^\n]*\n: ([^\n]*)", text)
+            ch[k - 1] = json.dumps({"ev": "unloggable", "case": int(m.group(1)) if m else -1,
+                                    "why": "the specification could not evaluate this observation: " + (why.group(1)[:160] if why else "evaluation error")})
+            with open(cpath, "w") as f:
+                f.write("\n".join(ch) + "\n")
         return ci, ch, rc, out_path
     with concurrent.futures.ThreadPoolExecutor(max_workers=parallel) as ex:
         results = list(ex.map(work, jobs))
